@@ -320,7 +320,7 @@ theorem failOne_plainLeafAt (c : Cfg) (k : Kind) (s : Sys) (q : List Nat) (r : B
   simp only
   rw [(notify_frame _ _ _ _).2.1]
   simp only
-  cases (effect k s.env.st).st <;> cases (effect k s.env.st).su <;>
+  cases (effect c k s.env.st (critLeafAt s.f q)).st <;> cases (effect c k s.env.st (critLeafAt s.f q)).su <;>
     simp only [plainLeafAt_updStatus, plainLeafAt_updState]
 
 end Failure
